@@ -16,6 +16,15 @@
 (*   accepted  1 if the reader accepted the first document                 *)
 (*   back      the object the reader built, observed through its accessors *)
 (*             (numbers in 1/1000 lattice units)                           *)
+(* A trace of kind "store" is one same-path history inside ONE process:    *)
+(* producer, objs (the abstract objects), and the operations                *)
+(*   write(path)   the real producer wrote the current object to the path   *)
+(*   change(to)    object number `to` became current                        *)
+(*   read(path)    the real reader read the path: accepted, back            *)
+(* consumed by the store machine's own actions WriteTo / ChangeTo /         *)
+(* ReadFrom; every read is judged against seen'.want, the design of the     *)
+(* object LAST written to that path.                                        *)
+(*                                                                          *)
 (* Every event is consumed by the specification's own chain                *)
 (* Produce ; ProduceAgain ; Read on the abstract object (doc', back' are   *)
 (* what the specification computes).  The clauses of the statement go to   *)
@@ -32,8 +41,11 @@ tvars == <<vars, tid, l, fails, drift>>
 
 T == Batch[tid]
 
+IsStore == T.kind = "store"
 TraceInit == /\ tid \in 1..Len(Batch) /\ l = 1 /\ fails = {} /\ drift = {}
-             /\ pc = "pick" /\ prod = "" /\ src = Nothing /\ doc = Nothing /\ doc2 = Nothing /\ back = Nothing
+             /\ doc = Nothing /\ doc2 = Nothing /\ back = Nothing /\ store = [f \in {"P", "Q"} |-> Nothing] /\ seen = Nothing /\ hist = <<>>
+             /\ IF Batch[tid].kind = "store" THEN pc = "store" /\ prod = Batch[tid].producer /\ src = Batch[tid].objs[1]
+                ELSE pc = "pick" /\ prod = "" /\ src = Nothing
 
 IsDie(p) == p \in {"die", "floorset_dief"}
 IsNet(p) == ~IsDie(p) /\ p # "alloc"
@@ -68,15 +80,33 @@ Drifts(e) ==
   \cup (IF e.prod = "die" /\ e.op = "none" /\ ~SameDieObs(DieObsOf(e.src), e.pre) THEN {"source_object"} ELSE {})
   \cup (IF e.prod = "alloc" /\ e.op = "none" /\ ~SameAllocObs(AllocObsOf(e.src), e.pre) THEN {"source_object"} ELSE {})
 
+\* a read of a same-path history, judged against the design last written to that path (seen'.want)
+ReadClauses(e, want) ==
+  LET yes == e.accepted = 1 IN
+  [ accepted     |-> yes,
+    same_design  |-> (yes /\ ~IsNet(prod)) => IF IsDie(prod) THEN SameDieObs(DieObsOf(want), e.back) ELSE SameAllocObs(AllocObsOf(want), e.back),
+    same_modules |-> (yes /\ IsNet(prod)) => SameModsObs(want, e.back),
+    same_flip    |-> (yes /\ IsNet(prod)) => SameFlipObs(want, e.back),
+    same_nets    |-> (yes /\ IsNet(prod)) => SameNetsObs(want, e.back),
+    unaltered    |-> TRUE,
+    repeat       |-> TRUE ]
+StoreOp == LET e == T.events[l] IN
+  CASE e.op = "write" -> WriteTo(e.path) /\ UNCHANGED <<fails, drift, hist>>
+    [] e.op = "change" -> ChangeTo(T.objs[e.to]) /\ UNCHANGED <<fails, drift, hist>>
+    [] OTHER -> /\ ReadFrom(e.path) /\ UNCHANGED <<drift, hist>>
+                /\ LET cl == ReadClauses(e, seen'.want) IN fails' = fails \cup { <<l, c>> : c \in { c \in ClauseNames : ~cl[c] } }
+
 Step == /\ l <= Len(T.events)
-        /\ LET e == T.events[l]
-               cl == Clauses(e)
-           IN /\ prod' = e.prod /\ src' = e.src
-              /\ doc' = Document(e.prod, e.src) /\ doc2' = Document(e.prod, e.src)
-              /\ back' = Reader(e.prod, doc')
-              /\ fails' = fails \cup { <<l, c>> : c \in { c \in ClauseNames : ~cl[c] } }
-              /\ drift' = drift \cup { <<l, d>> : d \in Drifts(e) }
-        /\ pc' = "read" /\ l' = l + 1 /\ UNCHANGED tid
+        /\ IF IsStore THEN StoreOp
+           ELSE LET e == T.events[l]
+                    cl == Clauses(e)
+                IN /\ prod' = e.prod /\ src' = e.src
+                   /\ doc' = Document(e.prod, e.src) /\ doc2' = Document(e.prod, e.src)
+                   /\ back' = Reader(e.prod, doc')
+                   /\ fails' = fails \cup { <<l, c>> : c \in { c \in ClauseNames : ~cl[c] } }
+                   /\ drift' = drift \cup { <<l, d>> : d \in Drifts(e) }
+                   /\ pc' = "read" /\ UNCHANGED fvars
+        /\ l' = l + 1 /\ UNCHANGED tid
 
 Done == /\ l = Len(T.events) + 1
         /\ l' = l + 1
